@@ -52,6 +52,8 @@ def search(chk, n_cases):
         eps = 1e-6
         tol = 50 * eps
         d = 2
+        sx, sy, sz = (opr.sigma(a) for a in "xyz")
+        sm = opr.sigma("-")
         method = rng.choice(["tempo", "pttempo", "meanfield", "gibbs", "tebd"])
         alpha = rng.choice([0.05, 0.5, 1.5])
         T = rng.choice([0.0, 0.3, 2.0])
@@ -66,6 +68,18 @@ def search(chk, n_cases):
             method = ["pttempo", "pttempo", "tempo"][it]
             forced_storage = ["file-backed", "exported+imported", None][it]
             op = rng.choice([0.3 * sx + 0.4 * sy, 0.5 * sy + 0.2 * sz])
+        unique = False
+        if it in (5, 6) or (it > 6 and method in ("tempo", "pttempo") and rng.random() < 0.3):
+            # every run (it == 5: PT-TEMPO, it == 6: TEMPO): a three-level system with a REPEATED coupling eigenvalue and the
+            # degeneracy compression (unique=True) switched on; non-commuting, complex system Hamiltonian
+            d = 3
+            if it in (5, 6):
+                method = ["pttempo", "tempo"][it - 5]
+            unique = it in (5, 6) or rng.random() < 0.7
+            op = np.diag(rng.choice([[0.0, 1.0, 1.0], [0.5, -0.5, 0.5], [1.0, 1.0, 0.0]])).astype(complex)
+            if rng.random() < 0.5:
+                q_, r_ = np.linalg.qr(np.array([[rng.gauss(0, 1) + 1j * rng.gauss(0, 1) for _ in range(3)] for _ in range(3)]))
+                op = q_ @ op @ q_.conj().T
         bath = oqupy.Bath(op, corr)
         dkmax = rng.choice([None, None, 2])
         dt, n = 0.1, rng.randint(3, 6)
@@ -82,23 +96,27 @@ def search(chk, n_cases):
         rho0 = rand_rho(rng, d, rng.choice(["pure", "mixed", "rank-deficient"]))
         syskind = rng.choice(["H", "lindblad", "td"])
         h0 = 0.5 * sx + 0.2 * sz
+        if d == 3:
+            h0 = np.array([[0.0, 0.7, 0.3 - 0.2j], [0.7, 1.0, 0.1], [0.3 + 0.2j, 0.1, 1.2]])
+            sm = np.diag([1.0, 1.0], 1).astype(complex)
+            sz, sy = np.diag([1.0, 0.0, -1.0]).astype(complex), 1j * (sm.T - sm)
         if syskind == "H":
             sysm = oqupy.System(h0)
         elif syskind == "lindblad":
             sysm = oqupy.System(h0, gammas=[0.3, 0.1], lindblad_operators=[sm, sz])
         else:
             sysm = oqupy.TimeDependentSystem(lambda t: h0 + 0.4 * np.cos(2 * t) * sy, gammas=[lambda t: 0.1 * (1 + t)], lindblad_operators=[lambda t: sm])
-        info = {"method": method, "alpha": alpha, "T": T, "dkmax": dkmax, "add_correlation_time": tau_add, "system": syskind, "n": n}
+        info = {"method": method, "alpha": alpha, "T": T, "dkmax": dkmax, "add_correlation_time": tau_add, "system": syskind, "n": n, "d": d, "unique": unique}
         need_psd = dkmax is None
         try:
             if method == "tempo":
-                states = quiet(oqupy.Tempo(sysm, bath, par, rho0, 0.0).compute, n * dt, progress_type="silent").states
+                states = quiet(oqupy.Tempo(sysm, bath, par, rho0, 0.0, unique=unique).compute, n * dt, progress_type="silent").states
             elif method == "pttempo":
                 # in memory, written directly to a file, or exported and imported again
                 storage = forced_storage or rng.choice(["memory", "file-backed", "exported+imported"])
                 info["process_tensor"] = storage
                 pt = quiet(oqupy.pt_tempo_compute, bath, 0.0, n * dt, parameters=par, process_tensor_file=True if storage == "file-backed" else None,
-                           progress_type="silent")
+                           unique=unique, progress_type="silent")
                 if storage == "exported+imported":
                     import tempfile, os
                     fn_ = os.path.join(tempfile.mkdtemp(prefix="c04_"), "pt.hdf5")
